@@ -216,7 +216,12 @@ bool IncSolver::solve() {
 #endif
     satisfy();
     double lastcost = DBL_MAX, cost = bs->cost();
-    while(fabs(lastcost-cost)>0.0001) {
+    // A pass splits each block at most once, and a split across a 
+    // degenerate constraint can be undone by the following merges without 
+    // changing the cost.  So also continue while the last pass found 
+    // something to split, but, as in Solver::refine, not indefinitely.
+    unsigned maxtries = 100;
+    while((fabs(lastcost-cost)>0.0001) || ((splitCnt>0) && (maxtries-->0))) {
         satisfy();
         lastcost=cost;
         cost = bs->cost();
